@@ -2,9 +2,16 @@ package props
 
 import (
 	"bytes"
+	"crypto/ecdsa"
+	"crypto/elliptic"
+	crand "crypto/rand"
+	"crypto/tls"
+	"crypto/x509"
+	"crypto/x509/pkix"
 	"encoding/binary"
 	"fmt"
 	"github.com/pion/turn/v5"
+	"math/big"
 	"math/rand"
 	"net"
 	"runtime"
@@ -434,6 +441,11 @@ func init() {
 
 				return
 			}
+			if caseNo%40 == 22 {
+				runC09TLS(t, rng, rec, tier, caseNo)
+
+				return
+			}
 			if caseNo%40 == 20 || caseNo%40 == 21 {
 				runC09ClientStream(t, rng, rec, tier, caseNo/40*2+caseNo%40-20)
 
@@ -656,6 +668,121 @@ func runC09ClientStream(t *testing.T, rng *rand.Rand, rec *sim.Rec, tier string,
 	rec.Ev("client-stream-inputs")
 	rec.FP("client/stream/%s", kind)
 	rec.SetSample(map[string]any{"kind": "client-over-tcp-stream", "input": kind, "bytes": len(in)})
+}
+
+// c09TLSConfig returns a throw-away server certificate and a client configuration trusting it.
+func c09TLSConfig() (*tls.Config, *tls.Config, error) {
+	key, err := ecdsa.GenerateKey(elliptic.P256(), crand.Reader)
+	if err != nil {
+		return nil, nil, err
+	}
+	tmpl := &x509.Certificate{
+		SerialNumber: big.NewInt(1), Subject: pkix.Name{CommonName: "turn.verif.test"},
+		NotBefore: time.Unix(0, 0), NotAfter: time.Unix(4102444800, 0),
+		KeyUsage: x509.KeyUsageDigitalSignature, ExtKeyUsage: []x509.ExtKeyUsage{x509.ExtKeyUsageServerAuth},
+		DNSNames: []string{"turn.verif.test"},
+	}
+	der, err := x509.CreateCertificate(crand.Reader, tmpl, tmpl, &key.PublicKey, key)
+	if err != nil {
+		return nil, nil, err
+	}
+	cert := tls.Certificate{Certificate: [][]byte{der}, PrivateKey: key}
+
+	return &tls.Config{Certificates: []tls.Certificate{cert}, MinVersion: tls.VersionTLS12},
+		&tls.Config{InsecureSkipVerify: true, ServerName: "turn.verif.test", MinVersion: tls.VersionTLS12}, nil //nolint:gosec
+}
+
+// runC09TLS: a TLS listener. Parties that connect and send nothing, a few bytes, a TLS record
+// header, or garbage (prefixes of a TLS stream) must not keep anybody else from being served: a
+// second party's Binding request over TLS is answered while they linger.
+func runC09TLS(t *testing.T, rng *rand.Rand, rec *sim.Rec, tier string, caseNo int) {
+	n := simnet.New()
+	defer n.CloseAll()
+	srvCfg, cliCfg, err := c09TLSConfig()
+	if err != nil {
+		t.Fatal(err)
+	}
+	inner, err := n.ListenTCP(sim.ServerIP4, 5349)
+	if err != nil {
+		t.Fatal(err)
+	}
+	logs := sim.NewLogSink()
+	logs.Budget = 400000
+	srv, err := turn.NewServer(turn.ServerConfig{
+		Realm: "verif.test",
+		AuthHandler: func(ra *turn.RequestAttributes) (string, []byte, bool) {
+			return ra.Username, wire.LongTermKey(ra.Username, ra.Realm, "pw-a"), ra.Username == "alice"
+		},
+		ListenerConfigs: []turn.ListenerConfig{{Listener: tls.NewListener(inner, srvCfg), RelayAddressGenerator: &simpleGen{n: n}}},
+		LoggerFactory:   logs,
+	})
+	if err != nil {
+		t.Fatal(err)
+	}
+	defer srv.Close() //nolint:errcheck
+	lingerers := 1 + rng.Intn(4)
+	var held []*simnet.Conn
+	for i := 0; i < lingerers; i++ {
+		c, err := n.DialTCP(net.IPv4(10, 1, 2, byte(1+i)).To4(), 0, inner.TCPAddr())
+		if err != nil {
+			t.Fatal(err)
+		}
+		held = append(held, c)
+		switch rng.Intn(4) {
+		case 1:
+			_, _ = c.Write([]byte{0x16, 0x03, 0x01}) // the start of a handshake record header
+		case 2:
+			_, _ = c.Write([]byte{0x16, 0x03, 0x01, 0x02, 0x00, 0x01, 0x00, 0x01, 0xfc}) // header + start of a ClientHello
+		case 3:
+			g := make([]byte, 1+rng.Intn(40))
+			rng.Read(g)
+			_, _ = c.Write(g)
+		}
+	}
+	time.Sleep(time.Duration(rng.Intn(3000)) * time.Millisecond)
+	// the honest party
+	raw, err := n.DialTCP(net.IPv4(10, 1, 1, 1).To4(), 0, inner.TCPAddr())
+	if err != nil {
+		t.Fatal(err)
+	}
+	tc := tls.Client(raw, cliCfg)
+	done := make(chan error, 1)
+	var resp *wire.Msg
+	go func() {
+		if err := tc.Handshake(); err != nil {
+			done <- err
+
+			return
+		}
+		var tid [12]byte
+		copy(tid[:], "verif-tls-01")
+		if _, err := tc.Write(wire.NewBuilder(wire.MethodBinding, wire.ClassRequest, tid).Bytes()); err != nil {
+			done <- err
+
+			return
+		}
+		buf := make([]byte, 1500)
+		k, err := tc.Read(buf)
+		if err == nil {
+			resp, err = wire.ParseSTUN(buf[:k])
+		}
+		done <- err
+	}()
+	select {
+	case err := <-done:
+		if err != nil || resp == nil || resp.Class != wire.ClassSuccess {
+			rec.Violate("liveness-binding", "tls", "Binding over TLS failed while %d other connections linger in their handshake: %v", lingerers, err)
+		}
+	case <-time.After(5 * time.Second):
+		rec.Violate("liveness-binding", "tls/blocked", "a Binding request over TLS was not answered within 5 s while %d other connection(s) sat silent or half-way in their TLS handshake", lingerers)
+	}
+	_ = raw.Close()
+	for _, c := range held {
+		_ = c.Close()
+	}
+	rec.Ev("tls-lingerers")
+	rec.FP("tls/lingerers=%d", lingerers)
+	rec.SetSample(map[string]any{"kind": "tls-listener-with-lingering-connections", "lingerers": lingerers})
 }
 
 // runC09Client hands hostile datagrams to a real client's inbound path, directly through
